@@ -95,8 +95,16 @@ GarbageWhy(r) ==
               /\ \A j \in 1..Len(t.toks) : t.toks[j].t = "word" => Classify(t.toks[j].w).t # "bad"
         THEN {"string-literal"} ELSE {})
 
+\* RP: one source text (rendered by MC_Grammar) through the real parser: it reads what the grammar reads
+ReadWhy(r) ==
+  LET g == ParseProgram(r.src) IN
+     (IF r.res = "panic" THEN {"panic"} ELSE {})
+  \cup (IF r.res = "ok" /\ (~g.ok \/ g.stmts # r.stmts) THEN {"grammar"} ELSE {})
+  \cup (IF r.res = "err" /\ g.ok THEN {"grammar-accept"} ELSE {})
+
 RecWhy(r) ==
   CASE r.ev = "Parse" -> ParseWhy(r)
+    [] r.ev = "Read" -> ReadWhy(r)
     [] r.ev = "Num" -> NumWhy(r)
     [] r.ev = "Print" -> PrintWhy(r)
     [] r.ev = "Garbage" -> GarbageWhy(r)
